@@ -316,13 +316,17 @@ def _shards(tier):
         out.append(({"tk": 0, "mf": 2, "nact": 1}, 300))
         out.append(({"tk": 0, "mf": 2, "nact": 0}, 300))
     else:
+        # (1) the quick space over the 7-behaviour alphabet (13 action types)
         for s0 in range(4):
             for a0 in range(13):
-                for s1 in range(5):
-                    out.append(({"tk": 1, "mf": 2, "nact": 3, "s0": s0, "a0": a0, "s1": s1}, 1500))
-                out.append(({"tk": 1, "mf": 3, "nact": 2, "s0": s0, "a0": a0}, 1500))
-        out.append(({"tk": 1, "mf": 3, "nact": 1}, 900))
+                out.append(({"tk": 1, "mf": 2, "nact": 2, "s0": s0, "a0": a0}, 3000))
+        out.append(({"tk": 1, "mf": 3, "nact": 1}, 1800))
         out.append(({"tk": 1, "mf": 3, "nact": 0}, 900))
+        # (2) three registered actions (cleanup-registers-cleanup chains, two patches of one attribute, ...) with at most one fault
+        for s0 in range(4):
+            for a0 in range(11):
+                for s1 in range(5):
+                    out.append(({"tk": 0, "mf": 1, "nact": 3, "s0": s0, "a0": a0, "s1": s1}, 3000))
     return out
 
 
@@ -334,8 +338,8 @@ HARNESSES = [
                          "action 0) and of 11 types (cleanup x 5 behaviours, patch of an existing / missing "
                          "attribute, fixture ok / setUp fails / cleanUp fails / nested); at most 2 faults per "
                          "program; attribute initially absent, present, or present with value None; every program is run twice on the same instance",
-                "thorough": "7-behaviour alphabet (+ expected failure, MultipleExceptions), 0..3 actions of 13 types, "
-                            "fault budget 2 (3 actions) / 3 (<=2 actions)"},
+                "thorough": "7-behaviour alphabet (+ expected failure, MultipleExceptions) with 0..2 actions of 13 types and fault budget 2 "
+                            "(3 with <= 1 action); 3 actions over the 5-behaviour alphabet with at most 1 fault"},
         rule="one program per path; non-trivial = at least one cleanup/patch/fixture registered",
         fidelity=_fid, observe=_observe, describe=_describe,
         twin_fix={"tk": 0, "mf": 2, "nact": 1},
